@@ -79,9 +79,11 @@ enum K {
     OpenSelfKv,
     OpenOuterKv,
     TypeQuery,
+    /// drop the victim through the public `drop` function of the proof blueprint (how a holder drops a proof)
+    DropViaProofBlueprint,
 }
 
-const ALPHABET: [K; 12] = [
+const ALPHABET: [K; 13] = [
     K::Drop,
     K::Globalize,
     K::GlobalizeWithOwnReservation,
@@ -94,6 +96,7 @@ const ALPHABET: [K; 12] = [
     K::OpenSelfKv,
     K::OpenOuterKv,
     K::TypeQuery,
+    K::DropViaProofBlueprint,
 ];
 
 #[derive(Clone, Debug, PartialEq, Eq)]
@@ -227,7 +230,8 @@ fn policy(a: &ActorD, v: &VictimD, k: K, alive: bool) -> Verdict {
                 return Neutral;
             }
             match v {
-                VictimD::Proof => Required("proof-drop-by-holder"),
+                // the raw drop of a proof is reserved to the proof blueprint; holders use its public drop function
+                VictimD::Proof => Permitted,
                 VictimD::Obj { pkg, bp, outer, .. } => {
                     let own_bp = a.pkg == *pkg && a.bp == *bp;
                     let is_outer_object = outer.is_some() && a.bp == BP_OUTER && a.is_method() && a.outer_instance() == *outer;
@@ -304,6 +308,13 @@ fn policy(a: &ActorD, v: &VictimD, k: K, alive: bool) -> Verdict {
             }
         }
         K::TypeQuery => Neutral,
+        K::DropViaProofBlueprint => match v {
+            VictimD::Proof if alive => Required("proof-drop-by-holder"),
+            // anything else handed to the proof blueprint's drop must not be destroyed by it
+            VictimD::Proof => Neutral,
+            _ if alive => Forbidden("non-proof-dropped-through-proof-blueprint"),
+            _ => Neutral,
+        },
     }
 }
 
@@ -435,6 +446,10 @@ fn expand(w: &W50, a: &ActorD, v: &VictimD, k: K, vn: &N, sb: &mut SB) {
             return;
         }
         K::TypeQuery => sb.push(Op::GetBlueprintId(vn.clone())),
+        K::DropViaProofBlueprint => {
+            let pass = if matches!(v, VictimD::GlobalComp { .. } | VictimD::Account | VictimD::OwnAuthZone) { Pass::Ref(vn.clone()) } else { Pass::Own(vn.clone()) };
+            sb.push(Op::CallFunctionWithNode { pkg: RESOURCE_PACKAGE, bp: FUNGIBLE_PROOF_BLUEPRINT.to_string(), func: PROOF_DROP_IDENT.to_string(), node: pass })
+        }
     };
     sb.decisive.push(idx);
 }
@@ -446,7 +461,7 @@ struct Built {
 }
 
 fn consuming(k: K) -> bool {
-    matches!(k, K::Drop | K::Globalize | K::GlobalizeWithOwnReservation | K::UseAsReservation)
+    matches!(k, K::Drop | K::Globalize | K::GlobalizeWithOwnReservation | K::UseAsReservation | K::DropViaProofBlueprint)
 }
 
 /// the whole transaction for (actor, victim, abstract script)
@@ -486,7 +501,8 @@ fn build(w: &W50, a: &ActorD, v: &VictimD, script: &[K]) -> Built {
             // driver frame (depth 0): a function of the victim's blueprint — or a method of GO1 when the victim or the
             // actor is an inner object — creates the victim and hands it (Own) to the actor (depth 1)
             let mut d: Vec<Op> = vec![Op::NewObject { bp: bp.to_string(), lock0: false }];
-            let pass = vec![Pass::Own(N::Reg(0))];
+            // driver arguments: Arg(0) = package P, Arg(1) = package Q (references the frames need to name them), Arg(2) = receiver
+            let pass = vec![Pass::Own(N::Reg(0)), Pass::Ref(N::Arg(0)), Pass::Ref(N::Arg(1))];
             let mut recv_arg: Option<ComponentAddress> = None;
             let mut inner_actor_reg: Option<u8> = None;
             match a.recv {
@@ -498,7 +514,7 @@ fn build(w: &W50, a: &ActorD, v: &VictimD, script: &[K]) -> Built {
                 }
                 Some(r) => {
                     recv_arg = Some(global_recv(r));
-                    d.push(Op::CallProbeMethod { recv: N::Arg(0), method: "call".into(), script: actor_ops, pass });
+                    d.push(Op::CallProbeMethod { recv: N::Arg(2), method: "call".into(), script: actor_ops, pass });
                 }
             }
             if let Some(r) = inner_actor_reg {
@@ -511,13 +527,13 @@ fn build(w: &W50, a: &ActorD, v: &VictimD, script: &[K]) -> Built {
             let bytes = script_bytes(&d);
             let manifest = if driver_is_go1 {
                 match recv_arg {
-                    Some(r) => mb.call_method(w.go1, "call", manifest_args!(bytes, r)),
-                    None => mb.call_method(w.go1, "call", manifest_args!(bytes)),
+                    Some(r) => mb.call_method(w.go1, "call", manifest_args!(bytes, w.pkg_p, w.pkg_q, r)),
+                    None => mb.call_method(w.go1, "call", manifest_args!(bytes, w.pkg_p, w.pkg_q)),
                 }
             } else {
                 match recv_arg {
-                    Some(r) => mb.call_function(pkg_addr(w, *pkg), *bp, "run", manifest_args!(bytes, r)),
-                    None => mb.call_function(pkg_addr(w, *pkg), *bp, "run", manifest_args!(bytes)),
+                    Some(r) => mb.call_function(pkg_addr(w, *pkg), *bp, "run", manifest_args!(bytes, w.pkg_p, w.pkg_q, r)),
+                    None => mb.call_function(pkg_addr(w, *pkg), *bp, "run", manifest_args!(bytes, w.pkg_p, w.pkg_q)),
                 }
             }
             .build();
@@ -537,12 +553,13 @@ fn build(w: &W50, a: &ActorD, v: &VictimD, script: &[K]) -> Built {
             };
             let (m, depth) = match a.recv {
                 Some(Recv::InnerOfGO1) => {
+                    // (victim?, package P, package Q) are handed on in the same order
                     let pass = if *v == VictimD::OwnAuthZone {
-                        vec![]
+                        vec![Pass::Ref(N::Arg(0)), Pass::Ref(N::Arg(1))]
                     } else if matches!(v, VictimD::GlobalComp { .. } | VictimD::Account) {
-                        vec![Pass::Ref(N::Arg(0))]
+                        vec![Pass::Ref(N::Arg(0)), Pass::Ref(N::Arg(1)), Pass::Ref(N::Arg(2))]
                     } else {
-                        vec![Pass::Own(N::Arg(0))]
+                        vec![Pass::Own(N::Arg(0)), Pass::Ref(N::Arg(1)), Pass::Ref(N::Arg(2))]
                     };
                     let mut d = vec![
                         Op::NewObject { bp: a.bp.to_string(), lock0: false },
@@ -554,17 +571,17 @@ fn build(w: &W50, a: &ActorD, v: &VictimD, script: &[K]) -> Built {
                     }
                     let bytes = script_bytes(&d);
                     let go1 = w.go1;
-                    (with_victim(mb, &|mb, kind| call_with(mb, Target::Method(go1), bytes.clone(), kind)), 1)
+                    (with_victim(mb, &|mb, kind| call_with(w, mb, Target::Method(go1), bytes.clone(), kind)), 1)
                 }
                 Some(r) => {
                     let c = global_recv(r);
                     let bytes_actor = script_bytes(&actor_ops);
-                    (with_victim(mb, &|mb, kind| call_with(mb, Target::Method(c), bytes_actor.clone(), kind)), 0)
+                    (with_victim(mb, &|mb, kind| call_with(w, mb, Target::Method(c), bytes_actor.clone(), kind)), 0)
                 }
                 None => {
                     let bp = a.bp;
                     let bytes_actor = script_bytes(&actor_ops);
-                    (with_victim(mb, &|mb, kind| call_with(mb, Target::Function(actor_pkg, bp), bytes_actor.clone(), kind)), 0)
+                    (with_victim(mb, &|mb, kind| call_with(w, mb, Target::Function(actor_pkg, bp), bytes_actor.clone(), kind)), 0)
                 }
             };
             Built { manifest: m.deposit_entire_worktop(w.acct).build(), actor_depth: depth, sb }
@@ -585,7 +602,8 @@ enum Target {
     Function(PackageAddress, &'static str),
 }
 
-fn call_with(mb: ManifestBuilder, t: Target, bytes: Vec<u8>, kind: Option<ManifestArgKind>) -> ManifestBuilder {
+fn call_with(w: &W50, mb: ManifestBuilder, t: Target, bytes: Vec<u8>, kind: Option<ManifestArgKind>) -> ManifestBuilder {
+    let (p, q) = (w.pkg_p, w.pkg_q);
     mb.with_name_lookup(|b, lookup| {
         macro_rules! go {
             ($args:expr) => {
@@ -596,11 +614,11 @@ fn call_with(mb: ManifestBuilder, t: Target, bytes: Vec<u8>, kind: Option<Manife
             };
         }
         match kind {
-            None => go!(manifest_args!(bytes)),
-            Some(ManifestArgKind::Bucket) => go!(manifest_args!(bytes, lookup.bucket("v"))),
-            Some(ManifestArgKind::Proof) => go!(manifest_args!(bytes, lookup.proof("v"))),
-            Some(ManifestArgKind::Reservation) => go!(manifest_args!(bytes, lookup.address_reservation("v"))),
-            Some(ManifestArgKind::Address(a)) => go!(manifest_args!(bytes, a)),
+            None => go!(manifest_args!(bytes, p, q)),
+            Some(ManifestArgKind::Bucket) => go!(manifest_args!(bytes, lookup.bucket("v"), p, q)),
+            Some(ManifestArgKind::Proof) => go!(manifest_args!(bytes, lookup.proof("v"), p, q)),
+            Some(ManifestArgKind::Reservation) => go!(manifest_args!(bytes, lookup.address_reservation("v"), p, q)),
+            Some(ManifestArgKind::Address(a)) => go!(manifest_args!(bytes, a, p, q)),
         }
     })
 }
@@ -646,6 +664,7 @@ fn run_case(w: &W50, a: &ActorD, v: &VictimD, script: &[K], l: &mut Local, full_
         (_, None) => {
             // the decisive op was not reached (a helper op or the provisioning failed)
             l.class(&format!("{label}:not-reached"));
+            l.info(&format!("not-reached:{}:{}:{}", a.name, mc_core::truncate(&format!("{v:?}"), 60), mc_core::truncate(&receipt_class(&receipt), 80)));
         }
         (Verdict::Forbidden(key), Some(Ok(s))) => {
             l.violation(format!("forbidden-op-succeeded:{key}"), format!("{} performed {label} on {v:?} successfully ({s}); script {script:?}", a.name), case());
